@@ -1,4 +1,6 @@
 import Pyunicorn.Lemmas.Similarity
+import Pyunicorn.Lemmas.SimilarityIeee
+import Pyunicorn.Lemmas.SimilarityWeight
 import Pyunicorn.Generated.ArithC09
 /-!
 # C09 — similarity networks link exactly the pairs above the threshold
@@ -73,6 +75,44 @@ theorem nnz_non_local_le (S damp : Sim) (θ : Rat) (N : Nat)
   simp only [weighted, if_true]
   have := Rat.mul_le_mul_of_nonneg_left (hd i j hi hj) (hS i j hi hj)
   simpa using this
+
+/-! ## 2b. the documented distance weight `½ (tanh(a (d − d_min)) + 1)` -/
+
+/-- the weight lies in `[0, 1]` whenever the hyperbolic tangent supplied by the numerical library
+has values in `[-1, 1]` (the outer `+ 1` and `0.5 *` are monotone and exact at the end points, so
+this also holds for their rounded evaluation) -/
+theorem dampOf_mem_unit (th : Rat → Rat) (a dmin d : Rat)
+    (hth : -1 ≤ th (a * (d - dmin)) ∧ th (a * (d - dmin)) ≤ 1) :
+    0 ≤ dampOf th a dmin d ∧ dampOf th a dmin d ≤ 1 := by
+  unfold dampOf
+  obtain ⟨h1, h2⟩ := hth
+  constructor <;> grind
+
+/-- for the real hyperbolic tangent the weight lies strictly between 0 and 1 -/
+theorem real_weight_mem_unit (a dmin d : ℝ) :
+    0 < realWeight a dmin d ∧ realWeight a dmin d < 1 := realWeight_mem_unit a dmin d
+
+/-- farther apart ⇒ larger weight (monotone `tanh`, steepness `a ≥ 0`) -/
+theorem dampOf_mono (th : Rat → Rat) (hmono : ∀ x y, x ≤ y → th x ≤ th y) (a dmin d d' : Rat)
+    (ha : 0 ≤ a) (h : d ≤ d') : dampOf th a dmin d ≤ dampOf th a dmin d' := by
+  unfold dampOf
+  have h1 : d - dmin ≤ d' - dmin := by grind
+  have h2 : a * (d - dmin) ≤ a * (d' - dmin) := Rat.mul_le_mul_of_nonneg_left h1 ha
+  have := hmono _ _ h2
+  grind
+
+/-- a symmetric angular distance gives a symmetric weight matrix -/
+theorem dampMat_symm (th : Rat → Rat) (a dmin : Rat) (dist : Sim) (i j : Nat)
+    (h : dist i j = dist j i) : dampMat th a dmin dist i j = dampMat th a dmin dist j i := by
+  simp [dampMat, h]
+
+/-- **suppression of local links with the documented weight only removes links**: the hypothesis
+`damp ≤ 1` of `nnz_non_local_le` is a theorem for `damp = dampMat th a d_min dist` -/
+theorem nnz_non_local_le_documented (S dist : Sim) (th : Rat → Rat) (a dmin θ : Rat) (N : Nat)
+    (hS : ∀ i j, i < N → j < N → 0 ≤ S i j) (hth : ∀ x, -1 ≤ th x ∧ th x ≤ 1) :
+    nnz (thresholdAdjacency (weighted true S (dampMat th a dmin dist)) θ N)
+      ≤ nnz (thresholdAdjacency (weighted false S (dampMat th a dmin dist)) θ N) :=
+  nnz_non_local_le S _ θ N hS fun i j _ _ => (dampOf_mem_unit th a dmin (dist i j) (hth _)).2
 
 /-! ## 3. a symmetric similarity gives an undirected network -/
 
@@ -193,6 +233,101 @@ theorem density_gap_le_ties (S damp : Sim) (N k : Nat) (ρ ε θ : Rat)
   have : (len : Rat) ≤ (L : Rat) + T + k := by exact_mod_cast this
   grind
 
+/-- **the selected threshold is the stated quantile**: it is the order statistic number
+`m = min k (len − 1)` (counting from 0) of the off-diagonal similarities — at most `len − 1 − m`
+of them are larger, at least `len − m` are larger or equal -/
+theorem threshold_is_order_statistic (S : Sim) (N k : Nat) (θ : Rat)
+    (h : thresholdFromIndex S N k = some θ) :
+    (offDiag S N).countP (fun s => decide (θ < s)) + min k ((offDiag S N).length - 1) + 1
+        ≤ (offDiag S N).length ∧
+      (offDiag S N).length ≤ (offDiag S N).countP (fun s => decide (θ < s))
+        + (offDiag S N).countP (fun s => decide (s = θ)) + min k ((offDiag S N).length - 1) :=
+  ⟨quantile_upper _ k θ h, quantile_lower _ k θ h⟩
+
+/-- `flat_corr.sort()` may use any algorithm: every ascending rearrangement of the off-diagonal
+similarities is the list the model indexes -/
+theorem sort_algorithm_irrelevant (S : Sim) (N : Nat) (l' : List Rat)
+    (hp : l'.Perm (offDiag S N)) (hs : l'.Pairwise (· ≤ ·)) (k : Nat) :
+    l'[min k (l'.length - 1)]? = thresholdFromIndex S N k := by
+  rw [sorted_perm_eq_sortAsc _ _ hp hs]
+  rfl
+
+/-- the ordered pairs whose link is removed by the distance weight at threshold `θ` -/
+def suppressed (S damp : Sim) (θ : Rat) (N : Nat) : Nat :=
+  ((List.range (N * N)).filter fun p => p / N != p % N).countP fun p =>
+    decide (θ < S (p / N) (p % N)) && !decide (θ < S (p / N) (p % N) * damp (p / N) (p % N))
+
+/-- **with suppression of local links the request is missed by at most the tied pairs plus the
+suppressed pairs**: `ρ·(N² − N) − ε ≤ #linked + #tied at θ + #suppressed by the weight` -/
+theorem density_gap_non_local (S damp : Sim) (N k : Nat) (ρ ε θ : Rat)
+    (hk : (k : Rat) ≤ (1 - ρ) * ((offDiag S N).length : Rat) + ε)
+    (h : thresholdFromIndex S N k = some θ) :
+    ρ * ((offDiag S N).length : Rat) - ε
+      ≤ (nnz (thresholdAdjacency (weighted true S damp) θ N) : Rat)
+        + (((offDiag S N).countP fun s => decide (s = θ) : Nat) : Rat)
+        + (suppressed S damp θ N : Rat) := by
+  have h0 := density_gap_le_ties S damp N k ρ ε θ hk h
+  have hle : nnz (thresholdAdjacency (weighted false S damp) θ N)
+      ≤ nnz (thresholdAdjacency (weighted true S damp) θ N) + suppressed S damp θ N := by
+    rw [nnz_thresholdAdjacency, nnz_thresholdAdjacency]
+    simp only [offDiag, List.countP_map, suppressed]
+    have := countP_le_countP_add ((List.range (N * N)).filter fun p => p / N != p % N)
+      (fun p => decide (θ < S (p / N) (p % N)))
+      (fun p => decide (θ < S (p / N) (p % N) * damp (p / N) (p % N)))
+    simpa [weighted, Function.comp_def] using this
+  have : (nnz (thresholdAdjacency (weighted false S damp) θ N) : Rat)
+      ≤ (nnz (thresholdAdjacency (weighted true S damp) θ N) : Rat)
+        + (suppressed S damp θ N : Rat) := by exact_mod_cast hle
+  grind
+
+/-- 3 nodes, all similarities 1/2 or 3/4, weight 1/2 on one pair: request ρ = 1 → threshold 1/2;
+the pair (0,1)/(1,0) with similarity 3/4 is suppressed (3/8 ≤ 1/2), nothing is linked -/
+example : let S : Sim := fun i j => if i + j = 1 then 3/4 else 1/2
+    let damp : Sim := fun i j => if i + j = 1 then 1/2 else 1
+    thresholdFromIndex S 3 0 = some (1/2) ∧ suppressed S damp (1/2) 3 = 2 ∧
+      nnz (thresholdAdjacency (weighted true S damp) (1/2) 3) = 0 ∧
+      (offDiag S 3).countP (fun s => decide (s = 1/2)) = 4 := by decide +kernel
+
+/-! ### the index as CPython evaluates it (two IEEE-754 binary64 roundings) -/
+
+/-- one rounding to binary64 has relative error at most `2⁻⁵³` -/
+theorem rn53_relative_error (x : Rat) (hx : 0 ≤ x) : |rn53 x - x| ≤ x / 2 ^ 53 := rn53_err x hx
+
+/-- **the index `int((1 - ρ) * len)` computed in double precision** lies within
+`len · (2⁻⁵² + 2⁻¹⁰⁶)` of `[(1-ρ)·len − 1, (1-ρ)·len]`: it satisfies the index hypotheses of
+`density_le_request` and `density_gap_le_ties` with `ε = len · ieeeSlack` -/
+theorem ieeeIndex_bounds (ρ : Rat) (len : Nat) (h0 : 0 ≤ ρ) (h1 : ρ ≤ 1) :
+    (1 - ρ) * (len : Rat) - 1 - (len : Rat) * ieeeSlack ≤ (ieeeIndex ρ len : Rat) ∧
+      (ieeeIndex ρ len : Rat) ≤ (1 - ρ) * (len : Rat) + (len : Rat) * ieeeSlack :=
+  ieeeIndex_bounds' ρ len h0 h1
+
+/-- **`set_link_density(ρ)` as executed** (IEEE index, any `non_local`): the number of ordered
+linked pairs is at most `(ρ + 2⁻⁵² + 2⁻¹⁰⁶) · (N² − N)`, and without suppression of local links
+at least `(ρ − 2⁻⁵² − 2⁻¹⁰⁶) · (N² − N)` minus the pairs tied at the selected threshold -/
+theorem set_link_density_ieee (s s' : Net) (ρ : Rat)
+    (hS : ∀ i j, i < s.N → j < s.N → 0 ≤ s.S i j)
+    (hd : ∀ i j, i < s.N → j < s.N → s.damp i j ≤ 1)
+    (h0 : 0 ≤ ρ) (h1 : ρ ≤ 1)
+    (h : s.setLinkDensity (ieeeIndex ρ (offDiag s.S s.N).length) = some s') :
+    (nnz s'.A : Rat) ≤ (ρ + ieeeSlack) * ((offDiag s.S s.N).length : Rat) ∧
+      (s.nonLocal = false →
+        (ρ - ieeeSlack) * ((offDiag s.S s.N).length : Rat)
+          ≤ (nnz s'.A : Rat) + (((offDiag s.S s.N).countP fun x => decide (x = s'.θ) : Nat) : Rat)) := by
+  simp only [Net.setLinkDensity, Option.map_eq_some_iff] at h
+  obtain ⟨θ, hθ, rfl⟩ := h
+  obtain ⟨b1, b2⟩ := ieeeIndex_bounds ρ (offDiag s.S s.N).length h0 h1
+  have hslack : (0 : Rat) ≤ ieeeSlack := by unfold ieeeSlack; positivity
+  have hlen : (0 : Rat) ≤ ((offDiag s.S s.N).length : Rat) := by exact_mod_cast Nat.zero_le _
+  have hε : (0 : Rat) ≤ ((offDiag s.S s.N).length : Rat) * ieeeSlack := mul_nonneg hlen hslack
+  constructor
+  · have := density_le_request s.S s.damp s.nonLocal s.N _ ρ _ θ hS hd h0 hε b1 hθ
+    simp only [Net.setThreshold]
+    linarith
+  · intro hnl
+    have := density_gap_le_ties s.S s.damp s.N _ ρ _ θ b2 hθ
+    simp only [Net.setThreshold, hnl]
+    linarith
+
 /-- the reported density is the number of ordered linked pairs over `N (N − 1)` -/
 theorem density_spec (A : List Bool) (N : Nat) (d : Rat) (h : linkDensity A N = some d) :
     2 ≤ N ∧ d * ((N : Rat) * ((N : Rat) - 1)) = (nnz A : Rat) := by
@@ -254,53 +389,90 @@ def Net.Consistent (s : Net) : Prop :=
 
 /-- the constant part of the object -/
 def Net.SameData (s t : Net) : Prop :=
-  t.N = s.N ∧ t.directed = s.directed ∧ t.S = s.S ∧ t.damp = s.damp
+  t.N = s.N ∧ t.directed = s.directed ∧ t.damp = s.damp
+
+/-- the stored similarity after a history: replaced (by its absolute value) at each regeneration -/
+def curSim (S : Sim) : List Op → Sim
+  | [] => S
+  | .resim S1 :: os => curSim (absSim S1) os
+  | _ :: os => curSim S os
 
 theorem setThreshold_consistent (s : Net) (θ : Rat) :
     (s.setThreshold θ).Consistent ∧ s.SameData (s.setThreshold θ) ∧
+      (s.setThreshold θ).S = s.S ∧
       (s.setThreshold θ).θ = θ ∧ (s.setThreshold θ).nonLocal = s.nonLocal := by
   simp [Net.setThreshold, Net.Consistent, Net.SameData]
 
+/-- **`_regenerate_network`**: after a subclass re-derived its similarity the object is consistent
+with the *new* similarity, keeps threshold, `non_local`, grid and `directed` -/
+theorem regenerate_consistent (s : Net) (S1 : Sim) :
+    (s.regenerate S1).Consistent ∧ s.SameData (s.regenerate S1) ∧
+      (s.regenerate S1).S = absSim S1 ∧
+      (s.regenerate S1).θ = s.θ ∧ (s.regenerate S1).nonLocal = s.nonLocal := by
+  simp [Net.regenerate, Net.setThreshold, Net.Consistent, Net.SameData]
+
 theorem step_consistent (s s' : Net) (o : Op) (hc : s.Consistent) (h : s.step o = some s') :
-    s'.Consistent ∧ s.SameData s' := by
+    s'.Consistent ∧ s.SameData s' ∧ s'.S = curSim s.S [o] := by
   cases o with
   | thr θ =>
     simp only [Net.step, Option.some.injEq] at h
     subst h
-    exact ⟨(setThreshold_consistent s θ).1, (setThreshold_consistent s θ).2.1⟩
+    exact ⟨(setThreshold_consistent s θ).1, (setThreshold_consistent s θ).2.1,
+      (setThreshold_consistent s θ).2.2.1⟩
   | dens k =>
     simp only [Net.step, Net.setLinkDensity, Option.map_eq_some_iff] at h
     obtain ⟨θ, _, rfl⟩ := h
-    exact ⟨(setThreshold_consistent s θ).1, (setThreshold_consistent s θ).2.1⟩
+    exact ⟨(setThreshold_consistent s θ).1, (setThreshold_consistent s θ).2.1,
+      (setThreshold_consistent s θ).2.2.1⟩
   | nl b =>
     simp only [Net.step, Net.setNonLocal, Option.some.injEq] at h
     by_cases hb : (s.nonLocal != b) = true
     · rw [if_pos hb] at h
       subst h
       have := setThreshold_consistent { s with nonLocal := b } s.θ
-      exact ⟨this.1, this.2.1⟩
+      exact ⟨this.1, this.2.1, this.2.2.1⟩
     · rw [if_neg hb] at h
       subst h
-      exact ⟨hc, rfl, rfl, rfl, rfl⟩
+      exact ⟨hc, ⟨rfl, rfl, rfl⟩, rfl⟩
+  | resim S1 =>
+    simp only [Net.step, Option.some.injEq] at h
+    subst h
+    exact ⟨(regenerate_consistent s S1).1, (regenerate_consistent s S1).2.1,
+      (regenerate_consistent s S1).2.2.1⟩
+
+theorem curSim_cons (S : Sim) (o : Op) (os : List Op) :
+    curSim S (o :: os) = curSim (curSim S [o]) os := by
+  cases o <;> simp [curSim]
 
 /-- **consistency after every history** of `set_threshold / set_link_density / set_non_local`
-calls (any arguments, any raw quantile indices) that does not raise -/
+calls and similarity re-derivations (`set_winter_only`, `set_max_delay`, … →
+`_regenerate_network`), any arguments, any raw quantile indices, that does not raise: adjacency,
+link count and density are those of the reported threshold / `non_local` and of the *current*
+similarity -/
 theorem consistent_after_history (ops : List Op) (s s' : Net) (hc : s.Consistent)
-    (h : s.run ops = some s') : s'.Consistent ∧ s.SameData s' := by
+    (h : s.run ops = some s') : s'.Consistent ∧ s.SameData s' ∧ s'.S = curSim s.S ops := by
   induction ops generalizing s with
   | nil =>
     simp only [Net.run, Option.some.injEq] at h
     subst h
-    exact ⟨hc, rfl, rfl, rfl, rfl⟩
+    exact ⟨hc, ⟨rfl, rfl, rfl⟩, rfl⟩
   | cons o os ih =>
     simp only [Net.run, Option.bind_eq_some_iff] at h
     obtain ⟨s1, h1, h2⟩ := h
     have c1 := step_consistent s s1 o hc h1
     have c2 := ih s1 c1.1 h2
-    refine ⟨c2.1, ?_⟩
-    obtain ⟨a1, a2, a3, a4⟩ := c1.2
-    obtain ⟨b1, b2, b3, b4⟩ := c2.2
-    exact ⟨b1.trans a1, b2.trans a2, b3.trans a3, b4.trans a4⟩
+    refine ⟨c2.1, ?_, ?_⟩
+    · obtain ⟨a1, a2, a3⟩ := c1.2.1
+      obtain ⟨b1, b2, b3⟩ := c2.2.1
+      exact ⟨b1.trans a1, b2.trans a2, b3.trans a3⟩
+    · rw [c2.2.2, c1.2.2, ← curSim_cons]
+
+/-- the stored similarity is the absolute value of the raw similarity last handed over -/
+theorem curSim_absSim (S0 : Sim) (ops : List Op) :
+    curSim (absSim S0) ops = absSim (lastSim S0 ops) := by
+  induction ops generalizing S0 with
+  | nil => rfl
+  | cons o os ih => cases o <;> simp [curSim, lastSim, ih]
 
 /-- a consistent state *is* the freshly constructed object with the reported settings -/
 theorem consistent_eq_fresh (N : Nat) (directed : Bool) (S0 damp : Sim) (s : Net)
@@ -313,30 +485,93 @@ theorem consistent_eq_fresh (N : Nat) (directed : Bool) (S0 damp : Sim) (s : Net
   subst hN hdir hS hd
   simp [h1, h2, h3]
 
-/-- **fresh twin**: the object after any setter history equals a fresh
-`ClimateNetwork(grid, S₀, threshold=threshold(), non_local=non_local(), directed=…)` -/
+/-- **fresh twin**: the object after any history of setters and similarity re-derivations equals
+a fresh `ClimateNetwork(grid, S, threshold=threshold(), non_local=non_local(), directed=…)`
+built from the similarity `S` it was last given (`S₀` when none was re-derived) -/
 theorem history_eq_fresh (N : Nat) (directed : Bool) (S0 damp : Sim) (nl : Bool) (θ : Rat)
     (ops : List Op) (s' : Net)
     (h : (mkThreshold N directed S0 damp nl θ).run ops = some s') :
-    s' = mkThreshold N directed S0 damp s'.nonLocal s'.θ := by
+    s' = mkThreshold N directed (lastSim S0 ops) damp s'.nonLocal s'.θ := by
   have hc : (mkThreshold N directed S0 damp nl θ).Consistent :=
     (setThreshold_consistent _ θ).1
-  obtain ⟨c, d1, d2, d3, d4⟩ := consistent_after_history ops _ s' hc h
-  exact consistent_eq_fresh N directed S0 damp s' c d1 d2 d3 d4
+  obtain ⟨c, ⟨d1, d2, d3⟩, d4⟩ := consistent_after_history ops _ s' hc h
+  refine consistent_eq_fresh N directed (lastSim S0 ops) damp s' c d1 d2 ?_ d3
+  rw [d4, ← curSim_absSim]
+  rfl
 
 /-- the same when the object was built from a link density -/
 theorem history_eq_fresh_density (N : Nat) (directed : Bool) (S0 damp : Sim) (nl : Bool)
     (k : Nat) (ops : List Op) (s0 s' : Net)
     (h0 : mkDensity N directed S0 damp nl k = some s0) (h : s0.run ops = some s') :
-    s' = mkThreshold N directed S0 damp s'.nonLocal s'.θ := by
+    s' = mkThreshold N directed (lastSim S0 ops) damp s'.nonLocal s'.θ := by
   simp only [mkDensity, Net.setLinkDensity, Option.map_eq_some_iff] at h0
   obtain ⟨θ, _, rfl⟩ := h0
   exact history_eq_fresh N directed S0 damp nl θ ops s' h
+
+/-- after any history the stored similarity is non-negative (it is an absolute value): the
+hypothesis `hS` of the density theorems holds for every reachable object -/
+theorem stored_similarity_nonneg (N : Nat) (directed : Bool) (S0 damp : Sim) (nl : Bool) (θ : Rat)
+    (ops : List Op) (s' : Net)
+    (h : (mkThreshold N directed S0 damp nl θ).run ops = some s') (i j : Nat) : 0 ≤ s'.S i j := by
+  have e := history_eq_fresh N directed S0 damp nl θ ops s' h
+  have : s'.S = absSim (lastSim S0 ops) := by
+    rw [e]; simp [mkThreshold, Net.setThreshold, blank]
+  rw [this]
+  exact (absSim_spec _ i j).1
+
+/-- **the density clause for every reachable object, as executed**: after any history of setters and
+similarity re-derivations, `set_link_density(ρ)` (index evaluated in IEEE double) leaves a network whose
+reported density is at most `ρ + 2⁻⁵² + 2⁻¹⁰⁶`; only the range of the distance weight is assumed -/
+theorem density_request_after_history (N : Nat) (directed : Bool) (S0 damp : Sim) (nl : Bool)
+    (θ : Rat) (ops : List Op) (s s' : Net) (ρ d : Rat)
+    (hd : ∀ i j, i < N → j < N → damp i j ≤ 1)
+    (h0 : 0 ≤ ρ) (h1 : ρ ≤ 1)
+    (hrun : (mkThreshold N directed S0 damp nl θ).run ops = some s)
+    (h : s.setLinkDensity (ieeeIndex ρ (offDiag s.S s.N).length) = some s')
+    (hden : s'.density = some d) : d ≤ ρ + ieeeSlack := by
+  have e := history_eq_fresh N directed S0 damp nl θ ops s hrun
+  have hN : s.N = N := by rw [e]; simp [mkThreshold, Net.setThreshold, blank]
+  have hdamp : s.damp = damp := by rw [e]; simp [mkThreshold, Net.setThreshold, blank]
+  have hS := stored_similarity_nonneg N directed S0 damp nl θ ops s hrun
+  have hb := (set_link_density_ieee s s' ρ (fun i j _ _ => hS i j)
+    (fun i j hi hj => by rw [hdamp]; exact hd i j (hN ▸ hi) (hN ▸ hj)) h0 h1 h).1
+  simp only [Net.setLinkDensity, Option.map_eq_some_iff] at h
+  obtain ⟨θ', _, rfl⟩ := h
+  simp only [Net.setThreshold] at hden hb
+  obtain ⟨h2, hmul⟩ := density_spec _ _ _ hden
+  have hlen := length_offDiag s.S s.N
+  generalize (offDiag s.S s.N).length = len at *
+  generalize nnz (thresholdAdjacency (weighted s.nonLocal s.S s.damp) θ' s.N) = L at *
+  have hlenR : (len : Rat) + (s.N : Rat) = (s.N : Rat) * (s.N : Rat) := by exact_mod_cast hlen
+  have hNR : (2 : Rat) ≤ (s.N : Rat) := by exact_mod_cast h2
+  have hM : (len : Rat) = (s.N : Rat) * ((s.N : Rat) - 1) := by linarith
+  have hpos : (0 : Rat) < (len : Rat) := by
+    rw [hM]; exact mul_pos (by linarith) (by linarith)
+  rw [← hM] at hmul
+  have : d * (len : Rat) ≤ (ρ + ieeeSlack) * (len : Rat) := by linarith
+  exact le_of_mul_le_mul_right this hpos
+
+/-- without re-derivations the similarity is the constructor's -/
+theorem lastSim_of_no_resim (S0 : Sim) (ops : List Op)
+    (h : ∀ o ∈ ops, ∀ S1, o ≠ Op.resim S1) : lastSim S0 ops = S0 := by
+  induction ops with
+  | nil => rfl
+  | cons o os ih =>
+    cases o with
+    | resim S1 => exact absurd rfl (h _ (by simp) S1)
+    | _ => simpa [lastSim] using ih (fun o ho => h o (by simp [ho]))
 
 example : ((mkThreshold 2 false (fun i j => if i = j then 1 else 1/2) (fun _ _ => 3/4) false
     (1/4)).run [Op.nl true, Op.dens 0, Op.thr (1/8), Op.nl true]).map
       (fun s => (s.nonLocal, s.θ, s.A, s.nLinks, s.density))
     = some (true, 1/8, [false, true, true, false], 1, some 1) := by decide +kernel
+
+/-- a regeneration in the middle of a history: the links follow the new similarity, at the kept
+threshold and `non_local` setting -/
+example : ((mkThreshold 2 true (fun i j => if i = j then 1 else 1/2) (fun _ _ => 1/2) true
+    (1/8)).run [Op.resim (fun i j => if i = j then 1 else if i < j then -1/8 else 3/4),
+      Op.nl false]).map (fun s => (s.nonLocal, s.θ, s.A, s.nLinks, s.density))
+    = some (false, 1/8, [false, false, true, false], 1, some (1/2)) := by decide +kernel
 
 /-! ## 6. the expressions regenerated from the source -/
 
@@ -357,6 +592,24 @@ theorem gen_linkDensity (A : List Bool) (N : Nat) (h : 2 ≤ N) :
     simp [Rat.intCast_sub, h2]
   have h3 : (((nnz A : Nat) : Int) : Rat) = (nnz A : Rat) := by norm_cast
   simp only [linkDensity, this, if_false, ArithC09.linkDensityExpr, h1, h2, h3]
+
+/-- `similarity_measure * (0.5 * (np.tanh(a * (self.grid.angular_distance() - d_min)) + 1))` of
+`_calculate_non_local_adjacency` is the weighted similarity of the model (`np.tanh` and the
+angular distance kept uninterpreted) -/
+theorem gen_weight (s a dmin d : Rat) (th : Rat → Rat) :
+    ArithC09.weightExpr s a dmin th d = s * dampOf th a dmin d := by
+  simp [ArithC09.weightExpr, dampOf]
+
+theorem gen_weighted (S dist : Sim) (th : Rat → Rat) (a dmin : Rat) (i j : Nat) :
+    weighted true S (dampMat th a dmin dist) i j
+      = ArithC09.weightExpr (S i j) a dmin th (dist i j) := by
+  simp [weighted, dampMat, gen_weight]
+
+/-- `if not self.directed: self.n_links //= 2` of the adjacency setter is `countLinks` -/
+theorem gen_countLinks (directed : Bool) (A : List Bool) :
+    ((countLinks directed A : Nat) : Int)
+      = if ArithC09.halveCond directed then ArithC09.halfLinks (nnz A : Nat) else (nnz A : Nat) := by
+  cases directed <;> simp [countLinks, ArithC09.halveCond, ArithC09.halfLinks]
 
 /-- the index `min(int((1-ρ)·len), len-1)` of the source is `min k (len-1)` for the exact floor
 `k` of `(1-ρ)·len`, which satisfies both index hypotheses of the density theorems with `ε = 0`,
